@@ -397,10 +397,101 @@ def both_disabled(run):
                 continue
             run.count("both_disabled_cases")
             run.case(("both-disabled", first, label, order.index(first)), dict(w, disabled=dis))
+            # a unix-style locked string ('*' is claimed by unix_disabled only; '!' by whichever disabled hasher is listed first)
+            for marker in "*!":
+                locked = marker + orig
+                owner = "unix_disabled" if marker == "*" else first
+                try:
+                    got_owner = ctx.identify(locked)
+                    try:
+                        got_back = ctx.enable(locked)
+                    except ValueError:
+                        got_back = ValueError
+                    lv = ctx.verify(PW, locked)
+                except Exception as e:
+                    run.violation(f"C18|both-disabled-hashers|locked-string|{type(e).__name__}", f"context {order}: handling {marker}+hash raised {type(e).__name__}: {str(e)[:80]}", w)
+                    continue
+                run.count("both_disabled_locked_strings")
+                exp_back = orig if owner == "unix_disabled" else ValueError
+                if got_owner != owner or lv is not False or got_back != exp_back:
+                    run.violation(f"C18|both-disabled-hashers|locked-string|{marker}-style", f"context {order}: {marker}+hash is identified as {got_owner!r} (expected {owner}), verify={lv}, enable -> {'ValueError' if got_back is ValueError else got_back[:16]!r} (expected {'the original hash' if exp_back is not ValueError else 'ValueError'})", w)
             want_back = orig if (first == "unix_disabled" and arg is not None) else ValueError
             if ident != first or v is not False or ctx.is_enabled(dis) is not False or back != want_back:
                 run.violation(f"C18|both-disabled-hashers|{first}-first|{label}",
                               f"context {order}: disable({label}) -> {dis[:20]!r}.. identified as {ident!r} (the first disabled hasher is {first}), verify={v}, enable -> {back if back is ValueError else back[:20]!r}; expected {'the original hash' if want_back is not ValueError else 'ValueError'}", w)
+
+
+def reconfigured_none_hash(run):
+    """verify(pw, None) stays False across in-place reconfigurations that add or remove context-keyword schemes"""
+    from passlib.context import CryptContext
+    seq = [["md5_crypt"], ["postgres_md5"], ["md5_crypt", "postgres_md5"], ["htdigest"], ["sha256_crypt"], ["msdcc2", "md5_crypt"], ["md5_crypt"]]
+    for how in ("update", "load"):
+        ctx = CryptContext(schemes=seq[0])
+        for step, schemes in enumerate(seq):
+            try:
+                if step:
+                    (ctx.update(schemes=schemes, default=schemes[0]) if how == "update" else ctx.load(dict(schemes=schemes)))
+                res = (ctx.verify("pw", None), ctx.verify_and_update("pw", None), ctx.dummy_verify())
+            except Exception as e:
+                run.violation(f"C18|none-hash|after-reconfiguration|{how}|{type(e).__name__}", f"after {how} to {schemes} (step {step}) verify(pw, None) raised {type(e).__name__}: {str(e)[:80]}", dict(sequence=seq[:step + 1], how=how))
+                break
+            run.count("reconfigured_none_hash_steps")
+            run.case(("none-hash-reconfigured", how, step), None)
+            if res != (False, (False, None), False):
+                run.violation(f"C18|none-hash|after-reconfiguration|{how}|not-false", f"after {how} to {schemes}: {res}", dict(sequence=seq[:step + 1], how=how))
+                break
+
+
+def marker_isolation(run):
+    """a context's marker is its own: building and using other contexts (or hashers) with other markers does not change what it writes or restores"""
+    from passlib.context import CryptContext
+    import passlib.hash as PH
+    orig = PH.md5_crypt.hash(PW)
+    for mine, others in (("*LK*", ["!", "*", "*NP*"]), ("!", ["*LK*", "*"]), ("*", ["!!", "*LK*"])):
+        kw = {"unix_disabled__marker": mine} if mine != "!" else {}
+        ctx = CryptContext(schemes=["md5_crypt", "unix_disabled"], **kw)
+        before = (ctx.disable(orig), ctx.disable(), ctx.enable(ctx.disable(orig)))
+        for o in others:
+            try:
+                other = CryptContext(schemes=["md5_crypt", "unix_disabled"], unix_disabled__marker=o)
+                other.enable(other.disable(orig))
+                PH.unix_disabled.using(marker=o).hash("x")
+            except ValueError:
+                continue
+        try:
+            after = (ctx.disable(orig), ctx.disable(), ctx.enable(before[0]))
+            again = ctx.disable(before[0])
+            try:
+                bare = ctx.enable(mine)
+            except ValueError:
+                bare = ValueError
+        except Exception as e:
+            run.violation(f"C18|marker-isolation|raises|{type(e).__name__}", f"context with marker {mine!r}: {type(e).__name__}: {str(e)[:80]} after other contexts used {others}", dict(marker=mine, others=others))
+            continue
+        run.count("marker_isolation_cases")
+        run.case(("marker-isolation", mine), dict(marker=mine, others=others))
+        if after != before or before != (mine + orig, mine, orig) or again != before[0] or bare is not ValueError or PH.unix_disabled.default_marker not in ("!", "*"):
+            run.violation("C18|marker-isolation|changed", f"context with marker {mine!r}: disable/enable gave {before} before and {after} after other contexts used markers {others} (disable again -> {again!r}, enable(bare marker) -> {bare!r})",
+                          dict(marker=mine, others=others))
+
+
+def undecodable_bytes(run):
+    """a stored value that is not valid UTF-8 (a latin-1 plaintext record) under contexts that list a disabled hasher first"""
+    from passlib.context import CryptContext
+    for dis in ("django_disabled", "unix_disabled"):
+        ctx = CryptContext(schemes=[dis, "plaintext"], default="plaintext")
+        for stored, expect_enabled in ((b"caf\xe9", True), (b"!caf\xe9", False), (b"\xff\xfe", True)):
+            w = dict(schemes=[dis, "plaintext"], stored=repr(stored))
+            try:
+                en = ctx.is_enabled(stored)
+                v = ctx.verify("x", stored) if not expect_enabled else None
+            except Exception as e:
+                # (these values are recognisable: a '!' marker, or a plaintext record of the catch-all scheme)
+                run.violation(f"C18|{dis}|undecodable-bytes|{type(e).__name__}", f"{type(e).__name__} for the stored value {stored!r}: {str(e)[:60]}", w)
+                continue
+            run.count("undecodable_bytes_cases")
+            if en is not expect_enabled or v not in (None, False):
+                run.violation(f"C18|{dis}|undecodable-bytes|wrong-answer", f"stored {stored!r}: is_enabled={en} (expected {expect_enabled}), verify={v}", w)
 
 
 def long_originals(run):
@@ -470,6 +561,12 @@ def body(run):
     none_hash_entry_points(run)
     both_disabled(run)
     run.require("both_disabled_cases", 8)
+    run.require("both_disabled_locked_strings", 8)
+    reconfigured_none_hash(run)
+    run.require("reconfigured_none_hash_steps", 10)
+    marker_isolation(run)
+    run.require("marker_isolation_cases", 3)
+    undecodable_bytes(run)
     run.require("none_hash_entry_points", 200)
     # the same with a lowered library-wide size limit (environment switch read at import): ordinary hashes are then "long"
     run.parallel("checks.c18", "long_originals", [dict()], timeout=600, env={"PASSLIB_MAX_PASSWORD_SIZE": "64"})
